@@ -36,7 +36,10 @@ TRUSTED_BASE = [
     "Spec/NpReduce.v as a description of numpy ufunc.reduce (cross-checked against NumPy on every generated case)",
     "Model/Reduce.v hand transcription of COO._reduce_calc/_reduce_return, _calc_counts_invidx, reduceat, "
     "COO.transpose/reshape (tied by API-level and kernel-level correspondence); GCXS: decision structure "
-    "transcribed, grouped reduction modelled by the COO core on the re-sorted entries",
+    "transcribed, grouped reduction modelled by the COO core on the re-sorted entries; Model/ReduceGcxs.v transcribes the "
+    "index-pointer arithmetic of GCXS._reduce_calc (proved equal to the COO core through Model/Convert.v's "
+    "change_compressed_axes; compared with GCXS._reduce_calc called directly, kernel level)",
+    "Model/ReduceExt.v: mean/var/nanreduce as compositions over the reduce pipeline; element-wise steps by dense meaning",
     "correspondence harness tools/props/c03.py, tools/vlib.py (monkeypatches _grouped_reduce in the worker to "
     "record its raw arguments)",
 ]
@@ -44,6 +47,25 @@ ASSUMPTIONS = [
     "element values are unbounded integers: dtype promotion, casting (dtype=), float rounding and overflow of "
     "narrow data integers are not modelled (differential only; float16 accumulation excluded)",
     "mean/var/std and the nan-reductions are checked differentially only",
+]
+
+UNPROVED = [
+    "std: var_den covers the variance; the final np.sqrt is not rational and is not modelled (differential only)",
+    "float rounding / accumulation order / dtype casting of every reduction (differential only); the dtype-promotion "
+    "DECISION of mean/var is proved (mean_dtype_promotion, var_dtype_promotion)",
+    "mean_den / var_den / nanreduce_den: the element-wise steps (true_divide by the count, self - arrmean, x*x, "
+    "where(isnan, identity, x)) are modelled by their dense meaning in canonical pruned form (unique by "
+    "COOP.canonical_unique); that elemwise returns this is C01/C06, tied here by the differential campaign only",
+    "mean_den / var_den for a zero reduced count (NumPy: nan) are outside exact arithmetic; var_den excludes 0-d input",
+    "nanmax / nanmin (x.reduce(np.fmax / np.fmin)) and nanmean: reduce_den holds for any associative-commutative op, but "
+    "no instance for fmax/fmin over a value type with a NaN token is given; nanmean is differential only",
+    "GCXS: gcxs_recompress_is_coo_calc ties change_compressed_axes + the index-pointer arithmetic to the COO core for "
+    "ndim >= 2 arrays that are the GCXS image (Convert.gcxs_from_coo) of a canonical COO array; gcxs_reduce_den_partial "
+    "is stated for the COO-core model of that path.  GCXS._reduce_return (1-d GCXS, then GCXS.reshape to the kept "
+    "extents) and the flatten() of the full-reduction path are modelled through COO reshape (dense-equivalent), "
+    "tied by API-level correspondence and C05/C08",
+    "gcxs_ok (distinct in-range entries) is a hypothesis of the GCXS theorems, checked per case (gcxs_okb); its "
+    "derivation from gcxs_wfb is C05's",
 ]
 
 UF = {"add": 0, "multiply": 1, "minimum": 2, "maximum": 3, "logical_or": 4, "logical_and": 5,
@@ -132,6 +154,20 @@ def impl_reduce(case):
         res["out"] = vlib.plain(r)
     except Exception as ex:  # noqa: BLE001
         res["out"] = _exc_plain(ex)
+    # kernel level, GCXS: call _reduce_calc directly (re-compression path) to see the index-pointer arithmetic
+    if spec["format"] == "gcxs" and isinstance(axis, tuple) and len(axis) > 0 and x.ndim >= 2:
+        nd = x.ndim
+        if all(isinstance(a, int) and -nd <= a < nd for a in axis):
+            nax = tuple(a + nd if a < 0 else a for a in axis)
+            if len(set(nax)) == len(nax) and len(nax) < nd:
+                try:
+                    oc = x._reduce_calc(getattr(np, case["uf"]), nax, case["keepdims"])
+                    if len(oc) == 5 and oc[0].dtype.kind in "iub":
+                        res["ip"] = {"x": vlib.plain(oc[4][0]), "data": [vlib.val_token(v) for v in oc[0]],
+                                     "counts": [int(v) for v in oc[1]], "rowids": [int(v) for v in oc[4][2]],
+                                     "ncols": int(oc[3])}
+                except Exception as ex:  # noqa: BLE001
+                    res["ip"] = {"exc": type(ex).__name__}
     d = vlib.spec_dense(spec, dtype=case.get("dtype", "int64"))
     try:
         nr = getattr(np, case["uf"]).reduce(d, axis=axis, keepdims=case["keepdims"])
@@ -367,6 +403,63 @@ def gcxs_clause(spec, axis):
     return None
 
 
+NARROW_INT = {"int8": (-128, 127), "uint8": (0, 255), "int16": (-32768, 32767), "uint16": (0, 65535),
+              "int32": (-2 ** 31, 2 ** 31 - 1), "uint32": (0, 2 ** 32 - 1)}
+
+
+def wrap_clause(c):
+    """clause narrow_int_fill_correction_wraps: SparseArray.reduce computes the fill value of a sum / product,
+    `reduce_super_ufunc(self.fill_value, n_cols)` = fill * n_cols / fill ** n_cols, in the DATA dtype when n_cols is a
+    Python int (COO, and GCXS through its flatten path); NumPy accumulates narrow integers in the platform integer.
+    Holds of a case when that exact value does not fit the data dtype (it then shows in every group without a stored
+    element; mean/var/std inherit it through their sums)."""
+    dt = c.get("in_dtype")
+    if dt not in NARROW_INT:
+        return None
+    if c["kind"] == "dtype" and c.get("uf") in ("add", "multiply"):
+        uf = c["uf"]
+    elif c["kind"] in ("mean", "var", "std", "nanmean"):
+        uf = "add"
+    else:
+        return None
+    sp = c["spec"]
+    nd = len(sp["shape"])
+    try:
+        axes = norm_axes(c["axis"], nd)
+    except TypeError:
+        return None
+    if any(not (0 <= a < nd) for a in axes) or len(set(axes)) != len(axes):
+        return None
+    if sp["format"] == "gcxs" and len(axes) != nd:
+        return None          # the re-compression path takes n_cols from a NumPy integer: no wrap
+    ncols = math.prod(sp["shape"][a] for a in axes)
+    rf = sp["fill"] * ncols if uf == "add" else sp["fill"] ** ncols
+    lo, hi = NARROW_INT[dt]
+    return None if lo <= rf <= hi else "narrow_int_fill_correction_wraps"
+
+
+def directed_wrap_cases():
+    """seed-independent cases of the clause narrow_int_fill_correction_wraps (always hit, both tiers)"""
+    out = []
+    for dt in ("int8", "uint8", "int16"):
+        for fmt in ("coo", "gcxs"):
+            for axis in (None, [2, 1, 0]):
+                out.append({"kind": "dtype", "uf": "multiply", "in_dtype": dt, "req": None,
+                            "spec": {"shape": [2, 3, 2], "coords": [], "data": [], "fill": 3, "format": fmt, "caxes": None},
+                            "axis": axis, "keepdims": False, "spelling": "method"})
+        out.append({"kind": "dtype", "uf": "multiply", "in_dtype": dt, "req": None,
+                    "spec": {"shape": [2, 12], "coords": [[0, 0]], "data": [5], "fill": 3, "format": "coo", "caxes": None},
+                    "axis": 1, "keepdims": False, "spelling": "ufunc"})
+    for dt in ("int8", "uint8"):
+        out.append({"kind": "dtype", "uf": "add", "in_dtype": dt, "req": None,
+                    "spec": {"shape": [2, 90], "coords": [[0, 0]], "data": [5], "fill": 3, "format": "coo", "caxes": None},
+                    "axis": -1, "keepdims": True, "spelling": "func"})
+        out.append({"kind": "mean", "in_dtype": dt, "ddof": 0,
+                    "spec": {"shape": [2, 90], "coords": [[0, 0]], "data": [5], "fill": 3, "format": "coo", "caxes": None},
+                    "axis": 1, "keepdims": False, "spelling": "method"})
+    return out
+
+
 def group_kinds(spec, axis):
     ndim = len(spec["shape"])
     try:
@@ -532,7 +625,7 @@ def dtype_matrix_cases(tier, rng):
 
 
 def diff_cases(tier, rng):
-    cases = dtype_matrix_cases(tier, rng)
+    cases = directed_wrap_cases() + dtype_matrix_cases(tier, rng)
     n = 1 if tier == "quick" else 8
     for ndim in range(0, 4):
         for axis in axis_args(ndim, rng, tier):
@@ -668,7 +761,13 @@ def campaign(build, tier, seed, report, budget=1):
     dres = allres[len(cases) + len(kc):]
     timing["impl_all"] = round(time.time() - t0, 1)
     lits, kern = [], []
+    iplits, ipinfo = [], []
     for c, r in zip(cases, res, strict=True):
+        ip = r.get("ip") if isinstance(r, dict) else None
+        if ip and "x" in ip:
+            iplits.append(vpair(vZ(UF[c["uf"]]), vlib.sarr_lit(ip["x"]),
+                                vpair(vlist(ip["data"]), vlist(ip["counts"]), vlist(ip["rowids"]), vZ(ip["ncols"]))))
+            ipinfo.append((c, ip))
         out = r.get("out") if isinstance(r, dict) and "out" in r else r
         sp = c["spec"]
         inp = vlib.sarr_lit(r["inp"]) if isinstance(r, dict) and r.get("inp") else f"(SCoo {vlib.spec_coo_lit(sp)})"
@@ -759,6 +858,14 @@ def campaign(build, tier, seed, report, budget=1):
                      "case": c, "impl": out, "source": src,
                      "replay_py": f"import numpy as np; from sparse.numba_backend._coo.core import _grouped_reduce; "
                                   f"print(_grouped_reduce(np.array({c['data']},dtype='int64'), np.array({c['groups']},dtype='{c['gdtype']}'), np.{c['uf']}))"})
+    ipbad = build.judge("c03_ip", imp, "ipcase", "judge_ip", iplits, chunk=300, timeout=600)
+    for i, code in ipbad:
+        c, ip = ipinfo[i]
+        viol.append({"property": "C03", "op": "kernel:GCXS._reduce_calc", "kind": "representation", "clause": None,
+                     "code": code, "what": "the index-pointer arithmetic of GCXS._reduce_calc differs from Model/ReduceGcxs.v",
+                     "case": c, "impl": ip, "replay_py": replay_line(c)})
+    tag("kernel/gcxs_reduce_calc", len(iplits))
+    cov["kernel_gcxs_cases"] = len(iplits)
     tag("kernel/direct", sum(1 for k in kinfo if k[0] == "direct"))
     tag("kernel/captured", sum(1 for k in kinfo if k[0] == "captured"))
     tag("kernel/narrow_dtype", sum(1 for k in kinfo if k[1]["gdtype"] in NARROW))
@@ -777,7 +884,8 @@ def campaign(build, tier, seed, report, budget=1):
         if badl:
             ax = _axis_py(c["axis"])
             viol.append({"property": "C03", "op": "reduce_differential", "function": name, "kind": "value",
-                         "clause": (r.get("clause") if isinstance(r, dict) else None) or gcxs_clause(c["spec"], c["axis"]),
+                         "clause": (r.get("clause") if isinstance(r, dict) else None) or gcxs_clause(c["spec"], c["axis"])
+                         or wrap_clause(c),
                          "in_dtype": c.get("in_dtype"),
                          "format": c["spec"]["format"], "what": "; ".join(badl)[:400], "case": c, "impl": badl,
                          "replay_py": diff_replay_line(c, name)})
@@ -787,6 +895,7 @@ def campaign(build, tier, seed, report, budget=1):
                     if c["spec"]["coords"]})
     timing["diff"] = round(time.time() - t0, 1)
     cov["timing_cumulative_s"] = timing
+    cov["unproved_statements"] = UNPROVED
     cov["evaluations"] = len(cases) + len(klits) + len(dc)
     cov["distinct_nontrivial"] = distinct
     cov["api_cases"] = len(cases)
